@@ -332,32 +332,39 @@ def rule_h4(F):
         r.inst("declare_constant clones", {"ok": ok, "fn": cbd.path})
         if not ok:
             r.bad(cbd.path, "clone", relfile(cbd.file), c.get("line") or cbd.line, "the registered constant is not stored as a clone in the module-owned map")
-    # registered closures: the Arc whose address is baked in is pushed into registered_fns
-    cb = F.body("codegen::codegen")
-    if cb is None:
-        r.missing("codegen::codegen")
-    else:
+    # registered closures: the Arc whose address is baked in is pushed into registered_fns (in codegen() or in the builder method it
+    # calls for each runtime function)
+    ok, nsite, where = False, 0, None
+    for cb in F.bodies_in(["src/codegen/mod.rs"]):
+        if not cb.hir or "::tests::" in cb.path:
+            continue
         ldc = hir.LocalDefs(cb.hir)
         pushes = [c for c in hir.nodes(cb.hir["value"], "mcall") if c["m"] == "push" and hir.peel_refs(c["recv"]).get("n") == "registered_fns"]
         inserts = [c for c in hir.nodes(cb.hir["value"], "mcall") if c["m"] == "insert" and hir.peel_refs(c["recv"]).get("n") == "runtime_functions"]
-        ok = False
+        if not inserts:
+            continue
+        nsite += len(inserts)
+        where = cb
         for ps in pushes:
             pl = hir.res_local(hir.peel_refs(ps["args"][0]))
             for ins in inserts:
                 # ptr local in the inserted tuple derives from the same local
-                deps = set()
+                deps_ = set()
                 for n in hir.walk(ins["args"][1]):
                     if n.get("k") == "path" and hir.res_local(n) is not None:
                         d = ldc.get(hir.res_local(n))
                         if d and d[1] is not None:
                             for m in hir.walk(d[1]):
                                 if m.get("k") == "path" and hir.res_local(m) == pl:
-                                    deps.add(pl)
-                if pl in deps:
+                                    deps_.add(pl)
+                if pl in deps_:
                     ok = True
-        r.inst("closure pointer kept alive", {"ok": ok})
+    if nsite == 0:
+        r.missing("codegen::codegen")
+    else:
+        r.inst("closure pointer kept alive", {"ok": ok, "fn": where.path})
         if not ok:
-            r.bad(cb.path, "registered_fns", relfile(cb.file), cb.line, "the closure pointer handed to generated code is not derived from the Arc pushed into module.registered_fns")
+            r.bad(where.path, "registered_fns", relfile(where.file), where.line, "the closure pointer handed to generated code is not derived from the Arc pushed into module.registered_fns")
     return r
 
 
@@ -462,43 +469,46 @@ def rule_h8(F):
     functions, no iteration records a (pointer, trampoline) pair in `runtime_functions` without having pushed the owning Arc into
     `registered_fns` on the way (a de-duplication by trampoline, say, drops the captured state of all but one closure of a type)."""
     r = RuleResult("C11.H8", "codegen keeps every registered closure alive whose pointer it bakes into the code (push on every path to the insert)", floor=1)
-    cb = F.body("codegen::codegen")
-    if cb is None or not cb.mir:
-        r.missing("codegen::codegen")
-        return r
-    defs = mir.Defs(cb)
-
-    def on_field(t, field):
-        return bool(t["args"]) and mir.is_place_op(t["args"][0]) and field in mir.origin_key(cb, defs, t["args"][0][1])
-    pushes = [bi for bi, t in mir.calls(cb) if hir.last(mir.callee_def(t)) == "push" and on_field(t, "registered_fns")]
-    inserts = [bi for bi, t in mir.calls(cb) if hir.last(mir.callee_def(t)) == "insert" and on_field(t, "runtime_functions")]
-    if not pushes or not inserts:
-        r.missing("registered_fns.push (%d) / runtime_functions.insert (%d) in codegen" % (len(pushes), len(inserts)))
-        return r
-    loops = mir.natural_loops(cb)
-    for ins in inserts:
-        encl = [(h, nodes) for h, nodes in loops if ins in nodes]
-        if not encl:
-            r.missing("loop around runtime_functions.insert")
+    # the recording may be written in codegen() itself or in a method of the builder that codegen() calls per function
+    found = 0
+    for cb in F.bodies_in(["src/codegen/mod.rs"]):
+        if not cb.mir or "::tests::" in cb.path:
             continue
-        h, nodes = min(encl, key=lambda x: len(x[1]))
-        seen, work, skip = set(), [h], False
-        while work:
-            x = work.pop()
-            if x in seen or x in pushes:
-                continue
-            seen.add(x)
-            if x == ins:
-                skip = True
-                break
-            for sx in mir.succs(cb.blocks[x]):
-                if sx in nodes and sx not in seen:
-                    work.append(sx)
-        r.inst("runtime_functions.insert #%d" % ins, {"line": cb.blocks[ins]["term"]["line"], "reachable_without_keeping_the_closure_alive": skip})
-        if skip:
-            r.bad(cb.path, "closure pointer recorded without keep-alive", relfile(cb.file), cb.blocks[ins]["term"]["line"],
-                  "an iteration of the loop over the runtime functions can record the closure's raw pointer for the generated code without pushing its Arc into registered_fns: "
-                  "that closure (and what it captures) is freed with the Runtime while handles can still call into it")
+        defs = mir.Defs(cb)
+
+        def on_field(t, field):
+            return bool(t["args"]) and mir.is_place_op(t["args"][0]) and field in mir.origin_key(cb, defs, t["args"][0][1])
+        inserts = [bi for bi, t in mir.calls(cb) if hir.last(mir.callee_def(t)) == "insert" and on_field(t, "runtime_functions")]
+        if not inserts:
+            continue
+        pushes = [bi for bi, t in mir.calls(cb) if hir.last(mir.callee_def(t)) == "push" and on_field(t, "registered_fns")]
+        loops = mir.natural_loops(cb)
+        for ins in inserts:
+            found += 1
+            encl = [(h, nodes) for h, nodes in loops if ins in nodes]
+            if encl:
+                h, nodes = min(encl, key=lambda x: len(x[1]))
+            else:
+                h, nodes = 0, set(range(len(cb.blocks)))      # a helper that records one function: from its entry
+            seen, work, skip = set(), [h], False
+            while work:
+                x = work.pop()
+                if x in seen or x in pushes:
+                    continue
+                seen.add(x)
+                if x == ins:
+                    skip = True
+                    break
+                for sx in mir.succs(cb.blocks[x]):
+                    if sx in nodes and sx not in seen:
+                        work.append(sx)
+            r.inst("runtime_functions.insert #%d" % found, {"fn": cb.path, "line": cb.blocks[ins]["term"]["line"], "reachable_without_keeping_the_closure_alive": skip})
+            if skip:
+                r.bad(cb.path, "closure pointer recorded without keep-alive", relfile(cb.file), cb.blocks[ins]["term"]["line"],
+                      "an iteration of the loop over the runtime functions can record the closure's raw pointer for the generated code without pushing its Arc into registered_fns: "
+                      "that closure (and what it captures) is freed with the Runtime while handles can still call into it")
+    if not found:
+        r.missing("registered_fns.push / runtime_functions.insert in codegen")
     return r
 
 
